@@ -9,3 +9,4 @@ for p in "$@"; do
   echo "$(basename $d) $p rc=$? $(grep -c '^VIOLATION' build/seeded-$(basename $d)-$p.log) violation line(s): $(grep '^VIOLATION' build/seeded-$(basename $d)-$p.log | head -2 | tr '\n' ' ')"
 done
 git -C /repo checkout -- .
+python3 /verif/tools/extract.py > /dev/null
